@@ -209,6 +209,13 @@ def strat_pipeline(draw, tier, mode, heavy_faults=False):
         case["align_sdram"] = draw(st.booleans())
     # cores and memories named by identifiers of the caller's own
     case["custom_resources"] = draw(st.integers(0, 3)) == 0
+    # dead links that become known only after a first mapping on the same
+    # Machine object
+    case["late_dead_links"] = None
+    if mode == "by-hand" and m["dead_links"] and draw(st.integers(0, 2)) == 0:
+        case["late_dead_links"] = draw(st.lists(st.sampled_from(
+            [list(l) for l in m["dead_links"]]), unique_by=tuple,
+            min_size=1, max_size=6))
     return case
 
 
@@ -302,6 +309,30 @@ def _run_pipeline(case):
                                                       case["radius"]}
     random.seed(case["seed"])
     mode = case["mode"]
+    late = case.get("late_dead_links") if mode == "by-hand" else None
+    if late:
+        # the application was mapped once before some of the dead links were
+        # known; they are then recorded on the same Machine object and the
+        # application is mapped again (judged)
+        from rig.links import Links
+        from rig.place_and_route.exceptions import (
+            InsufficientResourceError, InvalidConstraintError,
+            MachineHasDisconnectedSubregion)
+        for x, y, l in late:
+            machine.dead_links.discard((x, y, Links(l)))
+        try:
+            random.seed(case["seed"] + 7)
+            pl0 = place(vr, nets, machine, cons, **place_kwargs)
+            al0 = allocate(vr, nets, machine, cons, pl0)
+            route(vr, nets, machine, cons, pl0, al0, **(
+                dict(route_kwargs, core_resource=Cores) if res_kw
+                else route_kwargs))
+        except (InsufficientResourceError, InvalidConstraintError,
+                MachineHasDisconnectedSubregion):
+            pass
+        for x, y, l in late:
+            machine.dead_links.add((x, y, Links(l)))
+        random.seed(case["seed"])
     if mode == "by-hand":
         placements = place(vr, nets, machine, cons, **place_kwargs)
         allocations = allocate(vr, nets, machine, cons, placements)
@@ -379,7 +410,8 @@ def check_pipeline(case):
                   MachineHasDisconnectedSubregion, MinimisationFailedError)
     cls = [case["mode"], "placer=" + case["placer"]] + (
         ["custom-resource-identifiers"] if case.get("custom_resources")
-        else []) + [
+        else []) + (["mapped-before-late-faults"]
+                    if case.get("late_dead_links") else []) + [
            "methods=" + ("default" if case["methods"] is None else
                          "+".join(case["methods"]) or "none"),
            "mesh" if case["machine"]["mesh"] else "torus"]
